@@ -1,3 +1,4 @@
 //! Finite generators for the shared domains of DESIGN §2.
 pub mod net;
 pub mod pt;
+pub mod train;
